@@ -11,7 +11,7 @@ SPEC = {
             "between 8 (thorough 10) steps x text/binary state; every step of every segmented run is compared with the "
             "unsegmented run and the unsegmented run with closed forms; states = distinct (segmentation, history of "
             "centre/k/work), transitions = Colvars steps"
-            " Later additions: schedules of simulations whose first step is 5 or 7 (the schedule counts from the step the restraint was created); staged centres with one-step stages; continuous and staged schedules of restraints with a timeStepFactor (small-step trajectories; value, energy at the restraint's steps, work, TI lines, every segmentation).",
+            " Later additions: schedules of simulations whose first step is 5 or 7 (the schedule counts from the step the restraint was created); staged centres with one-step stages; continuous and staged schedules of restraints with a timeStepFactor (small-step trajectories; value, energy at the restraint's steps, work, TI lines, every segmentation); accumulated work of moving centres for 3-vector, unit-vector and quaternion variables held fixed (256 steps: the work must be the energy change within 3%).",
     "assumptions": ["staged schedules: either boundary convention (change visible at step kN or kN+1) is accepted, consistently",
                     "accumulated work: force taken with the new, old or mid-point parameter value is accepted, consistently",
                     "staged TI: a stage's post-equilibration steps are kN+E+1..(k+1)N or kN+E..(k+1)N-1 (both accepted)"],
